@@ -120,7 +120,10 @@ func (d *ShapeDesc) BuildShape() s2.Shape {
 }
 
 // G draws from the process tape.
-type G struct{ T *core.Tape }
+type G struct {
+	T     *core.Tape
+	Small bool // keep drawn codec values small (complete fault enumeration needs short encodings)
+}
 
 func New() *G { return &G{T: &core.T} }
 
@@ -435,4 +438,188 @@ func edgeVectorFromPts(pts []s2.Point) s2.Shape {
 	// fall back to a polyline of the points.
 	p := s2.Polyline(clonePts(pts))
 	return &p
+}
+
+// ---- values steered at the codecs (C09/C15) --------------------------------------------------
+
+// snapMode: how the vertices of a drawn loop relate to cell centres.
+const (
+	SnapNone    = 0 // arbitrary points
+	SnapOne     = 1 // all vertices are centres of cells of one level
+	SnapMixed   = 2 // every vertex is a cell centre, levels vary per vertex
+	SnapPartial = 3 // most vertices at one level, some arbitrary (off-centre list)
+	SnapMostly  = 4 // most at one level, a few at another level
+)
+
+func (g *G) capV(n int) int {
+	if g.Small && n > 20 {
+		return 20
+	}
+	return n
+}
+
+func (g *G) snapPts(pts []s2.Point, mode int) []s2.Point {
+	t := g.T
+	if mode == SnapNone {
+		return pts
+	}
+	lvl := int(t.Uint(31))
+	if t.Chance(700) {
+		lvl = 12 + int(t.Uint(19)) // fine levels keep loops valid
+	}
+	out := make([]s2.Point, len(pts))
+	for i, p := range pts {
+		l := lvl
+		switch mode {
+		case SnapMixed:
+			l = 10 + int(t.Uint(21))
+		case SnapPartial:
+			if t.Chance(250) {
+				out[i] = p
+				continue
+			}
+		case SnapMostly:
+			if t.Chance(200) {
+				l = 10 + int(t.Uint(21))
+			}
+		}
+		out[i] = s2.CellFromPoint(p).ID().Parent(l).Point()
+	}
+	if validLoop(out) {
+		return out
+	}
+	// retry at the finest level, which moves vertices by nanometres only
+	for i, p := range pts {
+		out[i] = s2.CellFromPoint(p).ID().Parent(30).Point()
+	}
+	if validLoop(out) {
+		return out
+	}
+	return pts
+}
+
+// codecCenter draws a loop centre: anywhere, or hugging a cube face edge / corner so that
+// consecutive vertices change face and (si,ti) reach their extremes.
+func (g *G) codecCenter() s2.Point {
+	t := g.T
+	switch t.Uint(4) {
+	case 0:
+		return g.Point()
+	case 1:
+		// near a cube edge
+		f := int(t.Uint(6))
+		c := s2.CellFromCellID(s2.CellIDFromFace(f))
+		a, b := c.Vertex(int(t.Uint(4))), c.Vertex(int(t.Uint(4)))
+		if a == b {
+			return a
+		}
+		return s2.Point{Vector: a.Vector.Add(b.Vector).Normalize()}
+	case 2:
+		// a cube corner
+		f := int(t.Uint(6))
+		return s2.CellFromCellID(s2.CellIDFromFace(f)).Vertex(int(t.Uint(4)))
+	}
+	return s2.CellFromCellID(s2.CellIDFromFace(int(t.Uint(6)))).Center()
+}
+
+// CodecLoopDesc draws a loop for the codec engines.
+func (g *G) CodecLoopDesc() ShapeDesc {
+	t := g.T
+	if t.Chance(60) {
+		sp := SpEmpty
+		if t.Chance(500) {
+			sp = SpFull
+		}
+		return ShapeDesc{Kind: KLoop, Special: sp}
+	}
+	c := g.codecCenter()
+	n := g.vertexCount(g.capV(150))
+	rmax := math.Tan((0.001 + 35*t.Float()*t.Float()) * math.Pi / 180)
+	pts := g.starLoop(c, n, rmax*0.5, rmax, t.Chance(600))
+	pts = g.snapPts(pts, int(t.Uint(5)))
+	if t.Chance(200) {
+		// reversed orientation: the loop contains the origin side (originInside flag)
+		for a, b := 0, len(pts)-1; a < b; a, b = a+1, b-1 {
+			pts[a], pts[b] = pts[b], pts[a]
+		}
+	}
+	return ShapeDesc{Kind: KLoop, Loops: [][]s2.Point{pts}}
+}
+
+// CodecPolygonDesc draws a polygon for the codec engines: 0..many loops with holes, snapped in
+// one of the five ways, anywhere on the cube.
+func (g *G) CodecPolygonDesc() ShapeDesc {
+	t := g.T
+	if t.Chance(60) {
+		sp := SpEmpty
+		if t.Chance(500) {
+			sp = SpFull
+		}
+		return ShapeDesc{Kind: KPolygon, Special: sp}
+	}
+	mode := int(t.Uint(5))
+	nshell := 1 + int(t.Uint(3))
+	if t.Chance(100) {
+		nshell = 4 + int(t.Uint(10)) // many small shells: exercises the cumulative edge table (>12 loops)
+		if g.Small {
+			nshell = 4
+		}
+	}
+	base := g.codecCenter()
+	bx, by := frame(base)
+	var loops, raw [][]s2.Point
+	var depth []int
+	snap := func(pts []s2.Point) []s2.Point {
+		raw = append(raw, pts)
+		return g.snapPts(pts, mode)
+	}
+	for sIdx := 0; sIdx < nshell; sIdx++ {
+		var c s2.Point
+		var rmax float64
+		if nshell <= 3 {
+			c = base
+			if sIdx == 1 {
+				c = bx
+			} else if sIdx == 2 {
+				c = by
+			}
+			rmax = math.Tan((0.01 + 24*t.Float()*t.Float()) * math.Pi / 180)
+		} else {
+			// a ring of small shells around base, 20 degrees out, well separated
+			c = planar(base, math.Tan(20*math.Pi/180), 2*math.Pi*float64(sIdx)/float64(nshell))
+			rmax = math.Tan((0.01 + 1.5*t.Float()) * math.Pi / 180)
+		}
+		n := g.vertexCount(g.capV(90))
+		shell := snap(g.starLoop(c, n, rmax*0.6, rmax, t.Chance(500)))
+		loops = append(loops, shell)
+		depth = append(depth, 0)
+		inner := rmax * 0.6 * math.Cos(math.Pi/float64(n)) * 0.8
+		if t.Chance(400) {
+			nh := g.vertexCount(g.capV(70))
+			hole := snap(g.starLoop(c, nh, inner*0.6, inner, t.Chance(500)))
+			loops = append(loops, hole)
+			depth = append(depth, 1)
+			inner2 := inner * 0.6 * math.Cos(math.Pi/float64(nh)) * 0.8
+			if t.Chance(300) {
+				ni := g.vertexCount(g.capV(40))
+				loops = append(loops, snap(g.starLoop(c, ni, inner2*0.5, inner2, t.Chance(500))))
+				depth = append(depth, 2)
+			}
+		}
+	}
+	d := ShapeDesc{Kind: KPolygon, Loops: loops, Depth: depth}
+	if mode != SnapNone && d.BuildPolygon().Validate() != nil {
+		// coarse snapping broke the nesting: snap at the leaf level instead (nanometre moves)
+		for i, l := range raw {
+			fine := make([]s2.Point, len(l))
+			for j, p := range l {
+				fine[j] = s2.CellFromPoint(p).ID().Parent(30).Point()
+			}
+			if !validLoop(fine) {
+				fine = l
+			}
+			d.Loops[i] = fine
+		}
+	}
+	return d
 }
